@@ -68,6 +68,16 @@ def run(ctx):
         H = mk_qubit(of, terms)
         if not H.terms: continue
         S = [Q(s, float(sg)) for s, sg in zip(stabs, signs)]
+        if rng.random() < 0.6:
+            # strings related by a (signed) stabilizer product, with unrelated coefficients, listed before or after their partner:
+            # they must be merged with the correct relative sign
+            Hp = of.QubitOperator()
+            for t, c_ in list(H.terms.items())[:rng.choice([1, 2, 3])]:
+                prod = of.QubitOperator(t, 1.0) * rng.choice(S)
+                (t2, ph), = prod.terms.items()
+                if abs(complex(ph).imag) > 1e-12 or t2 in H.terms: continue
+                Hp += of.QubitOperator(t2, float(dy(rng) or 0.5))
+            H = (Hp + H) if rng.random() < 0.5 else (H + Hp)
         rp = {'call': 'taper_off_qubits / reduce_number_of_terms', 'n_qubits': n, 'hamiltonian': {repr(t): repr(c) for t, c in H.terms.items()}, 'stabilizers': [str(s) for s in S]}
         try:
             red, pos = qt.reduce_number_of_terms(H, S, output_fixed_positions=True)
